@@ -471,14 +471,18 @@ func (root *Root) replaceArgVars(vars map[string]interface{}, v interface{}, at 
 		}
 	case map[string]interface{}:
 		if it, _ := BaseType(at).(*Input); it != nil {
+			// Work on a copy, the literal belongs to the parsed executable
+			// which must not change when resolved.
+			nv := make(map[string]interface{}, len(tv))
 			for k, v := range tv {
 				var vt Type
 				if f := it.fields.get(k); f != nil {
 					vt = f.Type
 				}
-				tv[k], ea2 = root.replaceArgVars(vars, v, vt)
+				nv[k], ea2 = root.replaceArgVars(vars, v, vt)
 				ea = append(ea, ea2...)
 			}
+			val = nv
 			if val, err = it.CoerceIn(val); err != nil {
 				ea = append(ea, resWarnp(nil, "%s", err))
 			}
@@ -488,10 +492,12 @@ func (root *Root) replaceArgVars(vars map[string]interface{}, v interface{}, at 
 		if lt, _ := at.(*List); lt != nil {
 			mt = lt.Base
 		}
+		nl := make([]interface{}, len(tv)) // a copy, see above
 		for i, v := range tv {
-			tv[i], ea2 = root.replaceArgVars(vars, v, mt)
+			nl[i], ea2 = root.replaceArgVars(vars, v, mt)
 			ea = append(ea, ea2...)
 		}
+		val = nl
 	case Symbol:
 		bt := BaseType(at)
 		if et, _ := bt.(*Enum); et != nil {
